@@ -332,7 +332,18 @@ func arraysRun[T num, A arr[T, A]](k kit[T, A], rc *RunCtx, o *Outcome) {
 			nv := &arrView[T, A]{ref: child}
 			both(child.how, "view", v, func(a A) {
 				// the same call on both back-ends; remember the results
-				res := a.Slice(append([]int(nil), loc...), append([]int(nil), dims...), cloneInts(stepArg))
+				// the caller's location and step vectors are scratch buffers that it reuses after the
+				// call (the generated model wrappers do exactly that with their position vectors): a
+				// view must not keep referring to them.  (The extent vector is kept by the library
+				// by design - NdArrayCommon.SliceInto stores it - and is therefore left alone.)
+				la, sa := append([]int(nil), loc...), cloneInts(stepArg)
+				res := a.Slice(la, append([]int(nil), dims...), sa)
+				for i := range la {
+					la[i] = 1000003 + i
+				}
+				for i := range sa {
+					sa[i] = 7 + i
+				}
 				if any(a) == any(v.g) {
 					nv.g = res
 				} else {
@@ -567,12 +578,23 @@ func arraysRun[T num, A arr[T, A]](k kit[T, A], rc *RunCtx, o *Outcome) {
 				loc[d] = w.Choose(rv.shape[d])
 				sub[d] = 1 + w.Choose((rv.shape[d]-1-loc[d])/step[d]+1)
 			}
+			emptySource := w.Choose(12) == 11
+			if emptySource {
+				// a block with a zero extent (a model without lag states, a table split at its last
+				// column): the call must write nothing
+				sub[w.Choose(rank)] = 0
+				o.probe("two_array_op_with_empty_source_block")
+			}
 			cnt := product(sub)
 			svals := make([]float64, cnt)
 			for i := range svals {
 				svals[i] = uniq()
 			}
 			layout := w.Choose(5)
+			if emptySource {
+				// a view with a zero extent of non-empty storage, or an array that owns no elements
+				layout = w.Choose(4)
+			}
 			// destination offsets of the block, row-major
 			doffs := make([]int, 0, cnt)
 			{
@@ -588,7 +610,7 @@ func arraysRun[T num, A arr[T, A]](k kit[T, A], rc *RunCtx, o *Outcome) {
 			}
 			var srcG, srcC A
 			aliased := false
-			if w.Bool(30) {
+			if w.Bool(30) && !emptySource {
 				// the source is another view of the SAME storage (in-place decimation, shifting a
 				// block, copying between differently strided windows): only configurations in
 				// which the element-by-element definition does not depend on the order
@@ -606,7 +628,7 @@ func arraysRun[T num, A arr[T, A]](k kit[T, A], rc *RunCtx, o *Outcome) {
 			if !aliased {
 				srcG = makeSource(k, layout, sub, svals, w)
 				srcC = makeSource(k, layout, sub, svals, w)
-				if w.Bool(30) {
+				if w.Bool(30) && !emptySource {
 					srcC = makeSource(k, 5, sub, svals, w) // C-backed source into the C-backed destination
 				}
 			}
@@ -793,20 +815,47 @@ func arraysRun[T num, A arr[T, A]](k kit[T, A], rc *RunCtx, o *Outcome) {
 					o.probe("array_arithmetic_source_aliases_destination_storage")
 				}
 			}
+			// the reference keeps every element as a float64: a result beyond 2^53 (64-bit integer
+			// element types; a cascade through an aliased source multiplies by 3 per hop) could not be
+			// held exactly, so such an operation is replaced by the +1 function, whose results stay small
+			applyRef := func(which int) (exact bool) {
+				exact = true
+				for i, off := range rv.offs {
+					sval := svals[i]
+					if aSrc != nil {
+						// element by element, in row-major order, on the current contents
+						sval = r.store[aSrc.offs[i]]
+					}
+					switch which {
+					case 0:
+						r.store[off] = float64(T(sval) * 3)
+					case 1:
+						r.store[off] = float64(T(r.store[off]) + T(sval))
+					case 2:
+						r.store[off] = float64(T(sval) + 1)
+					}
+					if k.name != "float64" && k.name != "float32" && math.Abs(r.store[off]) >= 1<<53 {
+						exact = false
+					}
+				}
+				return
+			}
+			saved := make([]float64, len(rv.offs))
 			for i, off := range rv.offs {
-				sval := svals[i]
-				if aSrc != nil {
-					// element by element, in row-major order, on the current contents
-					sval = r.store[aSrc.offs[i]]
+				saved[i] = r.store[off]
+			}
+			if !applyRef(which) {
+				for i, off := range rv.offs {
+					r.store[off] = saved[i]
 				}
-				switch which {
-				case 0:
-					r.store[off] = float64(T(sval) * 3)
-				case 1:
-					r.store[off] = float64(T(r.store[off]) + T(sval))
-				case 2:
-					r.store[off] = float64(T(sval) + 1)
+				which = 2
+				what = strings.Replace(what, names[0]+"(", names[2]+"(", 1)
+				what = strings.Replace(what, names[1]+"(", names[2]+"(", 1)
+				x.log[len(x.log)-1] = what
+				if !applyRef(2) {
+					panic("harness: reference values beyond 2^53 although only +1 was applied")
 				}
+				o.probe("array_arithmetic_cascade_would_exceed_2^53(replaced_by_+1)")
 			}
 			both(what, "bulk", v, func(a A) {
 				isGo := any(a) == any(v.g)
@@ -1238,8 +1287,18 @@ func sameRootSource[T num, A arr[T, A]](views []*arrView[T, A], dest *arrView[T,
 		out.offs = append(out.offs, p.ref.offs[flatIndex(pidx, p.ref.shape)])
 		rowMajorNext(idx, shape)
 	}
-	out.g = p.g.Slice(append([]int(nil), loc...), append([]int(nil), shape...), append([]int(nil), step...))
-	out.c = p.c.Slice(append([]int(nil), loc...), append([]int(nil), shape...), append([]int(nil), step...))
+	for _, dst := range []*A{&out.g, &out.c} {
+		la, sa := append([]int(nil), loc...), append([]int(nil), step...)
+		src := p.g
+		if dst == &out.c {
+			src = p.c
+		}
+		*dst = src.Slice(la, append([]int(nil), shape...), sa)
+		// the argument vectors are reused by the caller afterwards
+		for i := range la {
+			la[i], sa[i] = 1000003+i, 7+i
+		}
+	}
 	return p, out, true
 }
 
